@@ -25,6 +25,8 @@ def canon(e):
         a, b = out[2], out[3]
         if show(a) > show(b):
             out[2], out[3] = b, a
+    if out[0] == "ctor" and len(out) == 3 and isinstance(out[1], str) and out[1].endswith("iterator") and is_expr(out[2]):
+        return out[2]  # iterator -> const_iterator conversions are transparent
     if out[0] == "cast" and len(out) == 3 and re.fullmatch(r"(unsigned |signed )?(int|long|long long|short|char|bool|int64_t|uint64_t|uint32_t|int32_t|size_t|unsigned|CAmount|unsigned int|unsigned long)", out[1] or ""):
         return out[2]  # integral casts are transparent for guard comparison
     return out
